@@ -117,20 +117,31 @@ theorem bin_chanN (f : α → α → α) (a q : OArr α) (g : Nat → α) (N C :
   show optOp f _ (q.get (specBroadcastIdx (C :: List.replicate r.length 1) (n :: c :: r))) = _
   rw [sbi_chanN C n c r hc, hr.length_eq, hg c hc, optOp_some_right]
 
-/-- `normCore` over the last `|ns|` axes of an input `lead ++ ns`: element `p ++ q` is normalised with the statistics
-    of the block `x[p, ·]` -/
+/-- `normCore` over an axis list that names exactly the last `|ns|` axes of an input `lead ++ ns`: element `p ++ q` is
+    normalised with the statistics of the block `x[p, ·]` -/
+theorem normCore_block (add sub div : α → α → α) (sqabs sqrt : α → α) (divn : α → Nat → α) (eps : α) (x : Arr α)
+    (lead ns : Shape) (l : List Int) (hx : x.shape = lead ++ ns) (hp : Pos (lead ++ ns))
+    (hva : ValidAxes x.shape.length (some l))
+    (hR : axisSet x.shape.length (some l) = (List.range ns.length).map (lead.length + ·)) :
+    ∃ v, normCore add sub div sqabs sqrt divn eps x l = some v ∧ v.shape = lead ++ ns ∧
+      ∀ p q, InShape p lead → InShape q ns →
+        v.get (p ++ q) = normAt add sub div sqabs sqrt divn eps x.get ((allIdx ns).map (p ++ ·)) (p ++ q) := by
+  have hlen : x.shape.length = lead.length + ns.length := by rw [hx]; simp
+  have hpx : Pos x.shape := by rw [hx]; exact hp
+  obtain ⟨nrm, hn1, hn2, hn3⟩ := normCore_spec add sub div sqabs sqrt divn eps x l hpx hva
+  refine ⟨nrm, hn1, hn2.trans hx, fun p q hpi hq => ?_⟩
+  have hin : InShape (p ++ q) (lead ++ ns) := NN.inShape_append hpi hq
+  rw [hn3 _ (by rw [hx]; exact hin), grp_block x.shape lead.length ns.length hlen _ hR (p ++ q) (by rw [hx]; exact hin), hx,
+    blockOf_append lead ns p q hpi.length_eq]
+
+/-- `normCore` over the last `|ns|` axes (`−|ns| .. −1`) of an input `lead ++ ns` -/
 theorem normCore_trailing (add sub div : α → α → α) (sqabs sqrt : α → α) (divn : α → Nat → α) (eps : α) (x : Arr α)
     (lead ns : Shape) (hx : x.shape = lead ++ ns) (hp : Pos (lead ++ ns)) :
     ∃ v, normCore add sub div sqabs sqrt divn eps x (trailingAxes ns.length) = some v ∧ v.shape = lead ++ ns ∧
       ∀ p q, InShape p lead → InShape q ns →
         v.get (p ++ q) = normAt add sub div sqabs sqrt divn eps x.get ((allIdx ns).map (p ++ ·)) (p ++ q) := by
   have hlen : x.shape.length = lead.length + ns.length := by rw [hx]; simp
-  have hpx : Pos x.shape := by rw [hx]; exact hp
-  have hva : ValidAxes x.shape.length (some (trailingAxes ns.length)) := by rw [hlen]; exact validAxes_trailing _ _
-  obtain ⟨nrm, hn1, hn2, hn3⟩ := normCore_spec add sub div sqabs sqrt divn eps x (trailingAxes ns.length) hpx hva
-  refine ⟨nrm, hn1, hn2.trans hx, fun p q hpi hq => ?_⟩
-  have hin : InShape (p ++ q) (lead ++ ns) := NN.inShape_append hpi hq
-  rw [hn3 _ (by rw [hx]; exact hin), grp_trailing x.shape lead.length ns.length hlen (p ++ q) (by rw [hx]; exact hin), hx,
-    blockOf_append lead ns p q hpi.length_eq]
+  exact normCore_block add sub div sqabs sqrt divn eps x lead ns _ hx hp
+    (by rw [hlen]; exact validAxes_trailing _ _) (by rw [hlen]; exact axisSet_trailing _ _)
 
 end NmVerif.NN
